@@ -123,7 +123,7 @@ def gen_random_text(rng, n):
     return "".join(out)
 
 
-TOKEN_RE = re.compile(r'"(?:[^"\\\n]|\\.)*"|//[^\n]*|/\*.*?\*/|[A-Za-z][A-Za-z0-9]*|[0-9]+|\s+|.', re.S)
+TOKEN_RE = re.compile(r'"(?:[^"\\\n]|\\.)*"|//[^\n]*|/\*.*?\*/|[A-Za-z][A-Za-z0-9]*|[0-9]+|\s+|->|::|<=|>=|==|!=|&&|\|\||\.\.\.|.', re.S)
 
 
 def mutate(rng, text, vocab):
@@ -310,6 +310,9 @@ def check_lex_batch(ctx, texts, label, stats):
                 ctx.known(f1)
                 continue
             small = shrink_text(ts, fails_orc) if fails_orc(ts) else ts
+            if small in stats.setdefault("seen", set()):
+                continue
+            stats["seen"].add(small)
             _, i2, m2 = run_lex([small])
             stats["reported"] += 1
             ctx.violation("the lexer breaks C05 on this text: " + "; ".join(lex_oracle(small.encode(), i2[0]) or orc)[:300],
